@@ -157,7 +157,7 @@ func vAdvance() bool       { return zzAdvance() }
 func vNow() int64          { return zzNow() }
 func vAutoAdvance(on bool) {}
 func vPendingTimers() int  { return 0 }
-func vLeaks() int          { return 0 }
+func vLeaks() int          { return zzLeaks() }
 func vHeld(mu *sync.Mutex) bool {
 	if mu.TryLock() {
 		mu.Unlock()
@@ -275,4 +275,28 @@ func vDictFile(f *dict.File) io.Reader {
 	b.WriteString("</diameter>\n")
 	_ = xml.Header
 	return &b
+}
+
+// zzLeaks counts goroutines whose entry function belongs to the library (not to a harness).
+func zzLeaks() int {
+	time.Sleep(60 * time.Millisecond)
+	buf := make([]byte, 1<<20)
+	n := runtime.Stack(buf, true)
+	count := 0
+	for _, blk := range strings.Split(string(buf[:n]), "\n\n") {
+		lines := strings.Split(blk, "\n")
+		entry := ""
+		for i := 1; i < len(lines); i++ {
+			if strings.HasPrefix(lines[i], "created by ") {
+				break
+			}
+			if !strings.HasPrefix(lines[i], "\t") {
+				entry = lines[i]
+			}
+		}
+		if strings.Contains(entry, "github.com/fiorix/go-diameter/v4/diam") && !strings.Contains(entry, "zz") && !strings.Contains(entry, "TestVerifReplay") {
+			count++
+		}
+	}
+	return count
 }
